@@ -83,6 +83,17 @@ Theorem yaml_cache_transparent : forall (data : Type) (parse : list N -> list N 
   y_run data parse H cur (yempty data) evs = y_plain data parse H cur evs.
 Proof. exact yaml_cache_transparent_proof. Qed.
 
+(* P2. The file list whose digest enters the key of the persisted package tree
+   (YamlCache.__files) covers ALL files loaded in the invocation, each with the
+   digest of its current content — files served from the hot table included,
+   not only the re-parsed ones.  (This list is the [ki_files] input of
+   cache_key_complete in KeyProperties.v.) *)
+Theorem files_cover_all_loads : forall (data : Type) (parse : list N -> list N -> data)
+    (H : list N -> list N) (evs : list yevent) (cur : list N),
+  stat_faithful (y_loads evs) ->
+  y_files data evs (y_run data parse H cur (yempty data) evs) [] = y_session H evs [].
+Proof. exact files_cover_all_loads_proof. Qed.
+
 (* ---------------------------------------------------------------- non-vacuity *)
 
 (* the computation reads X and Y but not Z: changing Z changes nothing, and
@@ -187,3 +198,15 @@ Proof.
     discriminate E.
   - intro H. vm_compute in H. discriminate H.
 Qed.
+
+(* the list really contains the hot hit: file a (unchanged, served from the table) and the edited b *)
+Example files_cover_all_loads_nonvacuous :
+  y_files (list N) y_hist_two (y_run (list N) y_parse y_hash [0] (yempty (list N)) y_hist_two) []
+  = [([97], [5; 5]); ([98], [7])].
+Proof. vm_compute. reflexivity. Qed.
+
+(* guard: a cache that forgets the digest of hot hits does not satisfy the statement
+   (then the key would cover the re-parsed files only) *)
+Example hot_hit_digest_needed :
+  y_files (list N) y_hist_two (y_run_forget [0] (yempty (list N)) y_hist_two) [] <> y_session y_hash y_hist_two [].
+Proof. intro H. vm_compute in H. discriminate H. Qed.
